@@ -8,83 +8,118 @@ theorem stepTask_nums (val : Nat) (t : Task) (plan : Plan) (acc : Bool) :
       List.range' (base t) (obsNums (stepTask val t plan acc).2).length ∧
     ((stepTask val t plan acc).1.phase ≠ .done →
       base (stepTask val t plan acc).1 = base t + (obsNums (stepTask val t plan acc).2).length) := by
-  simp only [stepTask, startTask, afterFirst, atAwait, afterLoop, finish, cancelStep]
-  repeat' split
+  step_paths
   all_goals simp_all [obsNums, base, List.range']
 
-/-- the version a task remembers as notified was really put on the pipe, as a non-final
-notification carrying an Observe number -/
+/-- the ghost fields `sentVer` / `lastSent` of a task follow what it really puts on the pipe: they
+stay as they are; or `sentVer` is the version of a non-final notification carrying an Observe
+number that is among the effects; or the task has just ended by a final (Observe-less, marked
+last) notification with a successful code that carries version `sentVer` -/
 def SentSpec (t t' : Task) (acts : List Act) : Prop :=
-  t'.sentVer = t.sentVer ∨ ∃ code n, Act.emit code (some n) t'.sentVer false ∈ acts
+  (t'.sentVer = t.sentVer ∧ t'.lastSent = t.lastSent) ∨
+  (t'.lastSent = t.lastSent ∧ ∃ code n, Act.emit code (some n) t'.sentVer false ∈ acts) ∨
+  (t'.lastSent = true ∧ ∃ code, success code = true ∧ Act.emit code none t'.sentVer true ∈ acts)
 
 theorem SentSpec.mono {t t' : Task} {acts acts' : List Act} (h : SentSpec t t' acts)
     (hs : ∀ a ∈ acts, a ∈ acts') : SentSpec t t' acts' := by
-  rcases h with h | ⟨c, n, h⟩
+  rcases h with h | ⟨hl, c, n, h⟩ | ⟨hl, c, hc, h⟩
   · exact Or.inl h
-  · exact Or.inr ⟨c, n, hs _ h⟩
+  · exact Or.inr (Or.inl ⟨hl, c, n, hs _ h⟩)
+  · exact Or.inr (Or.inr ⟨hl, c, hc, hs _ h⟩)
+
+/-- one part of a step after another; the first part did not end the task by a final notification -/
+theorem SentSpec.comp {t t' t'' : Task} {a b : List Act} (h1 : SentSpec t t' a)
+    (hl : t'.lastSent = t.lastSent) (h2 : SentSpec t' t'' b) : SentSpec t t'' (a ++ b) := by
+  rcases h2 with ⟨hv, hl2⟩ | ⟨hl2, c, n, h⟩ | ⟨hl2, c, hc, h⟩
+  · rcases h1 with ⟨hv1, hl1⟩ | ⟨hl1, c, n, h⟩ | ⟨hl1, c, hc, h⟩
+    · exact Or.inl ⟨hv.trans hv1, hl2.trans hl1⟩
+    · exact Or.inr (Or.inl ⟨hl2.trans hl1, c, n, by rw [hv]; exact List.mem_append_left _ h⟩)
+    · exact Or.inr (Or.inr ⟨hl2.trans hl1, c, hc, by rw [hv]; exact List.mem_append_left _ h⟩)
+  · exact Or.inr (Or.inl ⟨hl2.trans hl, c, n, List.mem_append_right _ h⟩)
+  · exact Or.inr (Or.inr ⟨hl2, c, hc, List.mem_append_right _ h⟩)
+
+theorem finish_sent (t : Task) (r : Resp) : SentSpec t (finish t r).1 (finish t r).2 :=
+  Or.inl ⟨rfl, rfl⟩
 
 theorem afterLoop_sent (t : Task) (r : Resp) : SentSpec t (afterLoop t r).1 (afterLoop t r).2 := by
   unfold afterLoop
   split
-  · exact Or.inl rfl
-  · exact Or.inr ⟨r.code, t.obsNo + 1, by simp⟩
+  · exact finish_sent t r
+  · rename_i hg
+    simp only [Bool.or_eq_true, Bool.not_eq_true', not_or, Bool.not_eq_true,
+      Bool.not_eq_false] at hg
+    split
+    · refine Or.inr (Or.inr ⟨rfl, r.code, hg.2, ?_⟩)
+      simp [finish, hg.1]
+    · exact Or.inr (Or.inl ⟨rfl, r.code, t.obsNo + 1, by simp⟩)
+
+/-- a notification that does not end the task leaves `lastSent` alone -/
+theorem afterLoop_lastSent (t : Task) (r : Resp) (h : (afterLoop t r).1.phase ≠ .done) :
+    (afterLoop t r).1.lastSent = t.lastSent := by
+  unfold afterLoop at h ⊢
+  split
+  · rename_i hg; simp [hg, finish] at h
+  · rename_i hg
+    simp only [hg, Bool.false_eq_true, ↓reduceIte] at h
+    split
+    · rename_i hl; simp [hl, finish] at h
+    · rfl
 
 theorem atAwait_sent (val : Nat) (t : Task) (plan : Plan) :
     SentSpec t (atAwait val t plan).1 (atAwait val t plan).2 := by
   unfold atAwait
   split
-  · exact Or.inl rfl
+  · exact Or.inl ⟨rfl, rfl⟩
   · exact afterLoop_sent { t with trig := none } _
   · split
     · exact (afterLoop_sent { t with trig := none } _).mono (fun a ha => List.mem_cons_of_mem _ ha)
-    · exact Or.inl rfl
+    · exact Or.inl ⟨rfl, rfl⟩
 
 theorem afterFirst_sent (val : Nat) (t : Task) (r : Resp) (plan : Plan) :
     SentSpec t (afterFirst val t r plan).1 (afterFirst val t r plan).2 := by
   unfold afterFirst
   split
-  · exact Or.inl rfl
+  · exact finish_sent t r
   · dsimp only
-    rcases atAwait_sent val { t with obsNo := 0, sentVer := r.body, renderOut := none } plan with h | ⟨c, n, h⟩
-    · exact Or.inr ⟨r.code, 0, by rw [h]; simp⟩
-    · exact Or.inr ⟨c, n, List.mem_cons_of_mem _ h⟩
+    have h1 : SentSpec t { t with obsNo := 0, sentVer := r.body, renderOut := none }
+        [Act.emit r.code (some 0) r.body false] :=
+      Or.inr (Or.inl ⟨rfl, r.code, 0, by simp⟩)
+    exact h1.comp rfl (atAwait_sent val _ plan)
 
 theorem stepTask_sent (val : Nat) (t : Task) (plan : Plan) (acc : Bool) :
     SentSpec t (stepTask val t plan acc).1 (stepTask val t plan acc).2 := by
   unfold stepTask
   split
-  · exact Or.inl rfl
+  · exact Or.inl ⟨rfl, rfl⟩
   split
-  · exact Or.inl rfl
+  · exact Or.inl ⟨rfl, rfl⟩
   split
   · unfold startTask
     split
     · split
-      · exact (afterFirst_sent val { t with accepted := acc } _ .susp).mono
-          (fun a ha => List.mem_append_right _ (List.mem_cons_of_mem _ ha))
-      · exact Or.inl rfl
+      · have h1 : SentSpec t { t with accepted := acc } [] := Or.inl ⟨rfl, rfl⟩
+        exact (h1.comp rfl (afterFirst_sent val { t with accepted := acc } _ .susp)).mono
+          (fun a ha => List.mem_append_right _ (List.mem_cons_of_mem _ (by simpa using ha)))
+      · exact Or.inl ⟨rfl, rfl⟩
     · split
-      · exact Or.inl rfl
-      · exact Or.inl rfl
+      · exact Or.inl ⟨rfl, rfl⟩
+      · exact Or.inl ⟨rfl, rfl⟩
   · split
     · exact afterFirst_sent _ _ _ _
-    · exact Or.inl rfl
+    · exact Or.inl ⟨rfl, rfl⟩
   · exact atAwait_sent _ _ _
   · split
     · dsimp only
       split
       · exact afterLoop_sent _ _
-      · rename_i r _ _
-        rcases atAwait_sent val (afterLoop t r).1 plan with h | ⟨c, n, h⟩
-        · rcases afterLoop_sent t r with h' | ⟨c, n, h'⟩
-          · exact Or.inl (h.trans h')
-          · exact Or.inr ⟨c, n, by rw [h]; exact List.mem_append_left _ h'⟩
-        · exact Or.inr ⟨c, n, List.mem_append_right _ h⟩
-    · exact Or.inl rfl
+      · rename_i r _ hd
+        have hd' : (afterLoop t r).1.phase ≠ .done := by simpa using hd
+        exact (afterLoop_sent t r).comp (afterLoop_lastSent t r hd') (atAwait_sent val _ plan)
+    · exact Or.inl ⟨rfl, rfl⟩
   · split
-    · exact Or.inl rfl
-    · exact Or.inl rfl
-  · exact Or.inl rfl
+    · exact Or.inl ⟨rfl, rfl⟩
+    · exact Or.inl ⟨rfl, rfl⟩
+  · exact Or.inl ⟨rfl, rfl⟩
 
 /-- a render that starts in a step samples the resource's state of that moment -/
 def RenderSpec (val : Nat) (acts : List Act) : Prop := ∀ ver, Act.render ver ∈ acts → ver = val
@@ -98,7 +133,9 @@ theorem afterLoop_render (val : Nat) (t : Task) (r : Resp) : RenderSpec val (aft
   unfold afterLoop
   split
   · exact finish_render val t r
-  · intro ver h; simp at h
+  · split
+    · exact finish_render val _ r
+    · intro ver h; simp at h
 
 theorem RenderSpec_cons {val : Nat} {a : Act} {acts : List Act} (ha : ∀ ver, a = .render ver → ver = val)
     (h : RenderSpec val acts) : RenderSpec val (a :: acts) := by
@@ -166,8 +203,6 @@ theorem stepTask_render (val : Nat) (t : Task) (plan : Plan) (acc : Bool) :
 /-- after its step the task is suspended (or has ended): it is not in the ready queue -/
 theorem stepTask_suspended (val : Nat) (t : Task) (plan : Plan) (acc : Bool) :
     (stepTask val t plan acc).1.runnable = false := by
-  simp only [stepTask, startTask, afterFirst, atAwait, afterLoop, finish, cancelStep]
-  repeat' split
-  all_goals simp_all
+  step_auto
 
 end Aiocoap.Observe.Server
